@@ -333,11 +333,19 @@ class DeterministicFiniteAutomaton(NondeterministicFiniteAutomaton):
         # Create a state for this
         to_new_states = {}
         for group in groups:
+            if None in group:
+                # Equivalent to the implicit trash state: nothing is accepted
+                # from these states, they do not belong to the minimal DFA
+                states = states.difference(group)
+                continue
             new_state = to_single_state(group)
             for state in group:
                 to_new_states[state] = new_state
         # Build the DFA
         dfa = DeterministicFiniteAutomaton()
+        if not self._start_state.issubset(states):
+            dfa.add_start_state(State("Empty"))
+            return dfa
         for state in self._start_state:
             dfa.add_start_state(to_new_states[state])
         for state in states:
